@@ -68,9 +68,16 @@ def run(tier, seed, t0):
     if tier == "thorough":
         mc.append(vlib.run_mc("MC_Batch", "MC_Batch_big.cfg", workers=12, timeout=2400, xmx="24g"))
     scn = extra(tier, seed)
+    nbatch = len(scn)
+    # closes that cross on the wire (the client's Close has been written when the server's Close - and the
+    # CloseOk answering the client's - come in together), for the connection and for one channel
+    for fam in ("connclose_cross", "chclose_cross"):
+        for x in scenarios.generate(fam, 100 if tier == "quick" else 1500, seed):
+            x.update(order=[fam], base="session", ch0op="close")
+            scn.append(x)
     files, summ = vlib.run_sessions(PROP, scn, tier, hang_ms=5000 if tier == "quick" else 20000)
     consumed, bad = vlib.validate_traces("ConnTrace", "ConnTrace.cfg", files, timeout=3000, xmx="4g")
-    v = vlib.Verdict(PROP, own_kinds=("batch",))
+    v = vlib.Verdict(PROP, own_kinds=("batch", "connclose-cross", "chclose-cross"))
     v.absorb(bad)
     realised, total, sizes = batch_stats(files)
     if total == 0 or realised * 2 < total:
@@ -83,7 +90,9 @@ def run(tier, seed, t0):
              "channel, request on another channel} x base state {plain, consumers attached, listeners registered}: the I/O "
              "thread is parked before poll (hook gate), the events are made pending in exactly that order (mio's readiness "
              "queue is FIFO; client requests are confirmed enqueued through hook events), then handled in one wake-up; "
-             "afterwards every handle is used again and the connection closed. non-trivial/distinct = distinct (order, "
+             "afterwards every handle is used again and the connection closed; plus closes that cross on the wire: the "
+             "client's Close (of the connection / of a channel) has been written when the server's own Close and its CloseOk "
+             "for the client's arrive in one burst (or apart, or the CloseOk never). non-trivial/distinct = distinct (order, "
              "base, channel-0 operation); all of them are enumerated" % (3 if tier == "quick" else 4),
         samples=[{"order": s["order"], "base": s["base"], "ch0op": s["ch0op"]} for s in scn[5:8]],
         verdict=v, exhaustive=True,
